@@ -145,7 +145,7 @@ def nontrivial(case: Case, out: str) -> bool:
 
 
 def generate(rng: random.Random, tier: str):
-    n = 11000 if tier == "quick" else 80000
+    n = 18000 if tier == "quick" else 80000
     out = []
     for i in range(n):
         faults: list = []
